@@ -8,7 +8,7 @@ typedef struct { char str[16]; int64_t t; int utc; } tm_in;
 DECL_INPUT(tm_in);
 
 /* year loop closed by its invariant (days == D(year0) - D(year)); digit scan (<= 14) and month loop (<= 11) unwound completely */
-//@job name=asn1_time_from_str props=C14,C06 enforce=asn1_time_from_str loops=1 unwindset=asn1_time_from_str.*:16 timeout=1800
+//@job name=asn1_time_from_str props=C14,C06 enforce=asn1_time_from_str loops=1 unwindset=asn1_time_from_str.*:16 timeout=2400 solver=kissat
 void h_asn1_time_from_str(void)
 {
 	INPUT(tm_in, T);
@@ -23,7 +23,7 @@ void h_asn1_time_from_str(void)
 	CANARY("returned");
 }
 
-//@job name=asn1_time_to_str props=C14 enforce=asn1_time_to_str loops=1 timeout=1500
+//@job name=asn1_time_to_str props=C14 enforce=asn1_time_to_str loops=1 timeout=2400 solver=kissat
 void h_asn1_time_to_str(void)
 {
 	INPUT(tm_in, T);
@@ -38,7 +38,7 @@ void h_asn1_time_to_str(void)
 }
 
 /* lemma over the two contracts: decode(encode(t)) == t for every t the encoder accepts */
-//@job name=asn1_time_roundtrip props=C14 replace=asn1_time_to_str,asn1_time_from_str layer=lemma timeout=900 solver=z3
+//@job name=asn1_time_roundtrip props=C14 replace=asn1_time_to_str,asn1_time_from_str layer=lemma timeout=900
 void h_asn1_time_roundtrip(void)
 {
 	INPUT(tm_in, T);
